@@ -53,6 +53,20 @@ def run(ctx):
         for n, vlen in [(0, 0), (1, 23), (1, 24), (22, 1), (23, 1), (24, 1), (3, 255), (3, 256), (70, 10)] + ([(300, 3), (2, 65534), (2, 65535), (2, 65536), (2, 65537), (9, 60000)] if thorough else [(256, 1), (1, 65535), (2, 65536)]):
             e = ex(ver, b'https://example.com/', b'GET', big_headers(rng, n, vlen) if ver != 'b3' else [], 200, big_headers(rng, n, vlen))
             ops += [f'sxg.hdr {exs(e)}', f'sxg.write {exs(e)}', f'sxg.msg {exs(e)} {"bb" * 32} {hexs(b"https://example.com/v")} 5 10']
+        # request URL spellings that a parse / re-serialise step would change: the signed message and the file carry the bytes as given
+        for uri in (b'https://example.com/a|b.html', b'https://example.com/caf\xc3\xa9', b'https://example.com/page#', b'HTTPS://example.com/', b'https://EXAMPLE.com/x',
+                    b'https://example.com/%7Euser', b'https://example.com/%7euser', b'https://example.com/a b', b'https://example.com/?q=a|b&r=%41', b'https://example.com:443/',
+                    b'https://example.com', b'https://example.com/a/../b', b'https://example.com/a//b', b'https://example.com/?', b'https://example.com/"x"', b'https://example.com/\xff',
+                    b'http://example.com/', b'example.com/rel', b''):
+            e = ex(ver, uri, b'GET', [], 200, [(b'Content-Type', [b'text/html'])], b'sig', b'payload')
+            ops += [f'sxg.msg {exs(e)} {"bb" * 32} {hexs(b"https://example.com/v")} 5 10', f'sxg.write {exs(e)}', f'sxg.hdr {exs(e)}']
+            ops.append(f'sxg.sign.mock {exs(e)} {w.keys[0]["cert"]} {hexs(b"https://example.com/cert.msg")} {hexs(b"https://example.com/v")} 5 10')
+        # length fields at their limits (URL: 2 bytes; signature / header block: 3 bytes and the b2/b3 caps)
+        for ulen in (65534, 65535, 65536, 65556, 70000):
+            e = ex(ver, b'https://example.com/' + b'u' * (ulen - 20), b'GET', [], 200, [], b'sig', b'p')
+            ops += [f'sxg.write {exs(e)}', f'sxg.msg {exs(e)} {"bb" * 32} {hexs(b"https://example.com/v")} 5 10']
+        for slen in (16383, 16384, 16385):
+            ops.append(f'sxg.write {exs(ex(ver, b"https://example.com/", b"GET", [], 200, [], b"s" * slen, b"p"))}')
         # duplicate names after case folding, pseudo-header collisions
         for rs in ([(b'Foo', [b'a']), (b'foo', [b'b'])], [(b':status', [b'x'])], [(b'A', [b'1']), (b'a', [b'2']), (b'B', [b'3'])]):
             e = ex(ver, b'https://example.com/', b'GET', [], 200, rs)
